@@ -841,7 +841,7 @@ func c14Database(r *hx.Result, rng *hx.Rng, no int) (err error) {
 }
 
 func runC14(r *hx.Result, rng *hx.Rng, thorough bool, replay string) error {
-	r.Rule = "cases: (a) real stores, FileSize 48..1000, MaxIOConcurrency 1..4, embedded values on/off, 1..6 concurrent committers, 6..58 txs of 1..10 entries with empty / tiny / chunk-sized / multi-chunk values, ascending cut points incl. 0, repeats, last, last+1, an older cut after a newer one, commits between cuts, close/reopen; (a') late committers: history replicated in id order with the ReplicateTx call of 1..3 late txs started arbitrarily early (values staged, waiting for the predecessor), so that value-log order and id order differ by more than MaxConcurrency (2..6; MaxActiveTransactions from the exact minimum), all committed, then TruncateUptoTx(n) for every n (or an ascending subsequence), reopen; a heavy committer (512-entry txs) racing light ones with MaxConcurrency 2..4; (b) deterministic witnesses for the ExportTx lock leak (3 recipes) and the in-flight writer (replication path); (c) truncation racing 3..8 committers and a reader; (d) pkg/database: NewDB + SQL table with index and ALTER + document collection + KV, vlog truncator (CopySQLCatalog + TruncateUptoTx), writes, repeat, restart, second cut. Non-trivial = the truncation removed at least one chunk file (store cases; late-committer cases: and a tx more than MaxConcurrency ids later needs a lower chunk) / ran at least one truncation round (race) ; distinct by case label + cut."
+	r.Rule = "cases: (a) real stores, FileSize 48..1000, MaxIOConcurrency 1..4, embedded values on/off, 1..6 concurrent committers, 6..58 txs of 1..10 entries with empty / tiny / chunk-sized / multi-chunk values, ascending cut points incl. 0, repeats, last, last+1, an older cut after a newer one, commits between cuts, close/reopen; (a') late committers: history replicated in id order with the ReplicateTx call of 1..3 late txs started arbitrarily early (values staged, waiting for the predecessor), so that value-log order and id order differ by more than MaxConcurrency (2..6; MaxActiveTransactions from the exact minimum), all committed, then TruncateUptoTx(n) for every n (or an ascending subsequence), reopen; a heavy committer (512-entry txs) racing light ones with MaxConcurrency 2..4; (b) deterministic witnesses for the ExportTx lock leak (3 recipes) and the in-flight writer (replication path); (c) truncation racing 3..8 committers and a reader; (d) pkg/database: NewDB + SQL table with index and ALTER + document collection + KV, vlog truncator (CopySQLCatalog + TruncateUptoTx), writes, repeat, restart, second cut; (e) pkg/database with the catalog copy FAILING as well as succeeding: 1..6 tables (+ secondary indexes, added columns, 0..2 document collections), every DDL its own tx, MaxTxEntries 8..1024 (the copy needs one tx for the whole catalog), fillers of one chunk each so that the original catalog values lie below the cut, then 2..5 truncations through the vlog truncator with a plain / cancelled / expiring-at-its-k-th-poll context or with a DDL executed at the k-th poll of the copy (between two of its reads), ascending / repeated / last+1 cuts, writes + DDL in between, Close/OpenDB; a free-running DDL writer next to repeated truncations; whatever the truncator answers the reference schema, rows / documents / KV written at tx >= cut, new INSERTs and new DDL must work, error => no chunk file removed, nil => a catalog copy tx exists. Non-trivial = the truncation removed at least one chunk file (store cases; late-committer cases: and a tx more than MaxConcurrency ids later needs a lower chunk) / ran at least one truncation round (race) ; distinct by case label + cut."
 	nStore, nRace, nDB := 38, 3, 2
 	nOvt, nHeavy := 10, 2
 	if thorough {
@@ -852,6 +852,9 @@ func runC14(r *hx.Result, rng *hx.Rng, thorough bool, replay string) error {
 	lap := func(k string) {
 		r.Extra["phase_s."+k] = time.Since(t0).Seconds()
 		t0 = time.Now()
+	}
+	if os.Getenv("VH_C14_ONLY") == "dbcat" { // development aid: only the database-catalog families
+		return c14CatalogFamilies(r, rng, thorough, lap)
 	}
 	if err := c14LeakProbes(r); err != nil {
 		return err
@@ -919,5 +922,31 @@ func runC14(r *hx.Result, rng *hx.Rng, thorough bool, replay string) error {
 		}
 	}
 	lap("database")
+	return c14CatalogFamilies(r, rng, thorough, lap)
+}
+
+func c14CatalogFamilies(r *hx.Result, rng *hx.Rng, thorough bool, lap func(string)) error {
+	// database level, catalog copy succeeding AND failing (c14d.go)
+	nCat, nCatRace := 7, 1
+	if thorough {
+		nCat, nCatRace = 40, 4
+	}
+	for i := 0; i < nCat; i++ {
+		if err := c14CatalogCase(r, rng.Fork(), thorough, i); err != nil {
+			return err
+		}
+	}
+	for i := 0; i < nCatRace; i++ {
+		if err := c14CatalogRaceCase(r, rng.Fork(), thorough, i); err != nil {
+			return err
+		}
+	}
+	if err := c14SnapshotLeakProbe(r); err != nil {
+		return err
+	}
+	if err := r.Flush(); err != nil {
+		return err
+	}
+	lap("database-catalog")
 	return nil
 }
